@@ -567,6 +567,8 @@ class Interp:
                 f = self.prog.find_const(c.val)
                 if f is not None:
                     return f.ret
+                if c.val.endswith('::ALIGN') or c.val.endswith('::SIZE'):
+                    return USIZE
             return None
         return self.place_ty(fr, op.place)
 
@@ -739,6 +741,8 @@ class Interp:
         cache = self.prog._const_cache
         f = self.prog.find_const(name)
         if f is None:
+            if name in ('RangeFull', 'std::ops::RangeFull'):
+                return self.mk([], 'RangeFull')
             v = self.lib.named_const(name)
             return v
         if f.name in cache:
@@ -1048,6 +1052,8 @@ class Interp:
             # structural merge of a container whose length changed (string buffers)
             if whole is not None and whole.tag == 'StrBuf':
                 return self.merge_strbuf(cond, a, b)
+            if whole is not None and whole.tag == 'buf':
+                return self.merge_seq(cond, a, b)
             if len(a) != len(b):
                 raise Unsupported('merge of containers of different length')
             return [self.merge(cond, x, y, None) for x, y in zip(a, b)]
@@ -1060,6 +1066,11 @@ class Interp:
                 raise Unsupported('merge of different aggregates %s/%s' % (a.tag, b.tag))
             if a.tag == 'StrBuf':
                 return self.mk(self.merge_strbuf(cond, list(a), list(b)), 'StrBuf')
+            if a.tag == 'Vec':
+                cap = a[1] if (type(a[1]) is int and type(b[1]) is int and a[1] >= b[1]) else b[1]
+                return self.mk([self.merge(cond, a[0], b[0], None), cap], 'Vec')      # the capacity is not observable
+            if a.tag == 'buf' and (len(a) != len(b) or any(type(x) is Guarded for x in list(a) + list(b))):
+                return self.mk(self.merge_seq(cond, list(a), list(b)), 'buf')
             if len(a) != len(b):
                 raise Unsupported('merge of aggregates of different length (%s)' % a.tag)
             etys = self.elem_tys(ty, a)
@@ -1114,6 +1125,21 @@ class Interp:
             else:
                 vm[k] = va.get(k) or vb.get(k)
         return self.mk([disc, vm], 'symenum')
+
+    def merge_seq(self, cond, a, b):
+        """merge of two item sequences (vector buffers): element-wise if the shapes agree, otherwise common prefix
+        followed by pieces guarded by the condition"""
+        if len(a) == len(b) and not any(type(x) is Guarded for x in a + b):
+            return [self.merge(cond, x, y, None) for x, y in zip(a, b)]
+        n = 0
+        while n < min(len(a), len(b)) and (a[n] is b[n] or (type(a[n]) is int and type(b[n]) is int and a[n] == b[n])):
+            n += 1
+        out = list(a[:n])
+        if a[n:]:
+            out.append(Guarded(cond, list(a[n:])))
+        if b[n:]:
+            out.append(Guarded(T.lnot(cond), list(b[n:])))
+        return out
 
     def merge_tail(self, cond, a, b):
         """merge of what two arms appended to the same string buffer"""
@@ -1438,6 +1464,12 @@ class Interp:
         if kind in ('PtrToPtr', 'FnPtrToPtr', 'PointerCoercion(MutToConstPointer, Implicit)') or kind.startswith('PointerCoercion(MutToConst'):
             return v
         if kind == 'Transmute':
+            # NonNull<T> / Unique<T> -> raw pointer: unwrap the single pointer field; pointer -> integer: a fixed
+            # non-null, 16-byte aligned address (only ever used by the compiler's alignment/null debug asserts)
+            while type(v) is L and len(v) == 1 and type(v[0]) in (Ptr, L) and v.tag in ('NonNull', 'Unique'):
+                v = v[0]
+            if type(v) is Ptr and ty.kind == 'int':
+                return 0x10000
             return v
         if kind in ('PointerExposeProvenance', 'PointerWithExposedProvenance'):
             return v
